@@ -15,7 +15,9 @@ R = Rules(
         "entry; send_message queues exactly the CONs whose remote has a backlog entry and sends everything else; "
         "enqueue and dequeue address opposite ends (FIFO); _continue_backlog sends the head only while no exchange "
         "with that remote is active and deletes only an empty entry; exchanges are started only from the guarded "
-        "sites; a non-empty backlog is only dropped together with a dispatch_error for the same remote.  Liveness "
+        "sites; a non-empty backlog is only dropped together with a dispatch_error for the same remote; an exchange "
+        "is taken out of the table only under its complete key (remote and message ID handed to the remover) or, "
+        "when selected by remote alone, by a function that fails that remote's requests.  Liveness "
         "under arbitrary timing is not decided."
     ),
     rule_text=(
@@ -853,6 +855,106 @@ def i(ctx):
     ctx.floor("backlog entry drops", n_drop, 3)
 
 
+def _caller_data(av):
+    """The abstract value is determined by what the function was handed (a parameter other than the object itself,
+    or an attribute chain of one) -- not by the object's own state and not by an iteration / search."""
+    if av is None:
+        return False
+    if av[0] == "param":
+        return av[1] not in ("self", "cls")
+    if av[0] == "attr":
+        return _caller_data(av[1])
+    return False
+
+
+def _names_one_exchange(ke, av, eqs):
+    """The key of an access to the exchange table names ONE exchange completely: its remote component AND its
+    message-ID component are both (equal to) data the function was handed.  Equalities valid at the site (filters
+    of comprehensions, dominating branch outcomes) count: `for k in table: if k == (m.remote, m.mid): pop(k)`
+    names the same exchange as `pop((m.remote, m.mid))`.  A key whose message ID is whatever the table happens to
+    hold for a remote (iteration, search, `next(...)`, object state) does not."""
+    if av is None:
+        return False
+    wholes = [x for x in ke.closure(av, eqs) if x is not None]
+    for w in wholes:
+        c0, c1 = K.comp(w, 0), K.comp(w, 1)
+        if c0 is None or c1 is None:
+            continue
+        if w[0] == "tuple" and len(w[1]) != 2:
+            continue
+        if any(_caller_data(x) for x in ke.closure(c0, eqs)) and any(_caller_data(x) for x in ke.closure(c1, eqs)):
+            return True
+    return False
+
+
+@R.clause("C14.k", "an exchange ends only by an event that names it: every removal from the exchange table addresses the complete key (remote and message ID both handed to the function) or, when exchanges are selected by remote alone, fails that remote's requests")
+def k(ctx):
+    """`each as soon as, and ONLY WHEN, the previous exchange has been acknowledged, reset or has failed`; `none is
+    forgotten`.  C14.a/C14.i keep the two tables consistent with each other, whatever exchange is taken out; this
+    clause is about WHICH exchange may be taken out.  The events that end an exchange name it by remote and message
+    ID (an ACK / RST carries the message ID; a time-out belongs to the message whose timer fired) -- except the
+    transport error, which is reported for an endpoint and ends everything bound for it *by failing it*.  So, as an
+    invariant over every remover of the exchange table (every spelling K.table_ops knows; whatever method it
+    sits in, old or new):
+
+    * the removed key is complete -- both components are data handed to the function (parameters or attribute
+      chains of parameters other than self), directly, through locals, or through equalities that dominate the
+      site -- or
+    * the function selects by less than that (iteration over the table filtered by remote, a search, object
+      state): then every selected key belongs to a remote R (as in C14.a) and the function calls
+      token_manager.dispatch_error(.., R) on every path through the removal (before or after it) -- the exchange
+      ends as failed, its request and the held-back ones are failed (C14.f/C14.h; and C14.f's converse forbids
+      releasing the backlog afterwards).
+
+    An exchange that is taken out by remote alone without failing anything was neither acknowledged (no event
+    named it) nor failed: its message is not retransmitted any more, its request never completes, and the next
+    held-back message goes out next to it.  Retiring the whole table (shutdown marker, clear) is C14.a's matter;
+    a removing method handed on as a value is reported there as well."""
+    prog = ctx.prog
+    cls = prog.cls("messagemanager.MessageManager")
+    ke = K.KeyEval(prog, cls, AX)
+    n_rem = 0
+    n_complete = 0
+    for fi in mm_funcs(prog):
+        sc = ke.scope(fi)
+        rem = [o for o in K.table_ops(sc, AX) if o.level == "table" and o.kind == "del" and o.key is not None]
+        if not rem:
+            continue
+        cfg = cfg_of(fi)
+        fails = []
+        for c_ in calls_in(fi.node):
+            if isinstance(c_.func, ast.Attribute) and c_.func.attr == "dispatch_error" and chain(sc.deref(c_.func.value)) == "self.token_manager":
+                b_ = _bound(c_, ["exception", "remote"])
+                r2 = b_.get("remote") if b_ else None
+                rv = ke.aval(sc, r2) if r2 is not None else None
+                if rv is not None:
+                    fails.append((c_, rv))
+        for o in rem:
+            n_rem += 1
+            av = ke.aval(sc, o.key)
+            eqs = ke.guards_eqs(sc, o.key, None)
+            if _names_one_exchange(ke, av, eqs):
+                n_complete += 1
+                ctx.ob("an exchange is taken out of the table under its complete key (remote and message ID handed to the function), or by a function that fails the remote's requests", True, fi, o.node,
+                       detail="complete key `%s`" % stmt_text(o.key))
+                continue
+            alts = ke.key_alternatives(sc, o.key)
+            nid = cfg.loc1(o.node)
+            ok = bool(alts)
+            for rs, _origin in alts:
+                if not rs:
+                    ok = False
+                    continue
+                if not any(rv in rs and (cfg.must_pass(nid, cfg.locate(c_)) or any(cfg.dominates(x_, nid) for x_ in cfg.locate(c_))) for c_, rv in fails):
+                    ok = False
+            ctx.ob("an exchange is taken out of the table under its complete key (remote and message ID handed to the function), or by a function that fails the remote's requests", ok, fi, o.node,
+                   detail="`%s` does not name the exchange by remote and message ID (%s)%s" % (
+                       stmt_text(o.key), "; ".join(w for _, w in alts) or "origin not tracked",
+                       "" if ok else ": whichever exchange is open with the remote is ended although no ACK / RST / time-out named it and nothing is failed"))
+    ctx.floor("keyed removal sites of _active_exchanges", n_rem, 2)
+    ctx.floor("removals under the complete key", n_complete, 1)
+
+
 @R.clause("C14.g", "an acknowledgement always ends the exchange ahead of the queue: every incoming ACK/RST reaches _remove_exchange (shared with C03.e)")
 def g_shared(ctx):
     from . import c03
@@ -989,3 +1091,7 @@ R.seed("C14.j", "aiocoap/message.py", "            self.mtype = Type(_mtype)\n",
 R.seed("C14.j", "aiocoap/message.py", "        new.mtype = Type(kwargs.pop(\"mtype\")) if \"mtype\" in kwargs else self.mtype\n", "        new.mtype = kwargs.pop(\"mtype\", self.mtype)\n", "copy(mtype=0) yields a confirmable message the bookkeeping does not recognise")
 R.seed("C14.j", "aiocoap/message.py", "        msg.mtype = Type(mtype)\n", "        msg.mtype = mtype\n", "decoded messages carry the plain two-bit number: no incoming type is ever `is CON` / `is RST`")
 R.seed("C14.j", "aiocoap/message.py", "        if _mtype is None:\n            # leave it unspecified for convenience, sending functions will know what to do\n            self.mtype = None\n        else:\n            self.mtype = Type(_mtype)\n", "        self.mtype = _mtype if not _mtype else Type(_mtype)\n", "only truthy wire numbers are normalised: 0 (CON) stays a plain integer")
+# C14.k: which exchange an event may end
+R.seed("C14.k", F_MM, "        key = (message.remote, message.mid)\n\n        if key not in self._active_exchanges:\n            # Before turning", "        key = next((k for k in self._active_exchanges if k[0] == message.remote), None)\n\n        if key not in self._active_exchanges:\n            # Before turning", "an ACK / RST ends whatever exchange is open with its sender, whatever message ID it carries")
+R.seed("C14.k", F_MM, "        messageerror_monitor, next_retransmission = self._active_exchanges.pop(key)\n        next_retransmission.cancel()\n        if message.mtype is RST:", "        for key in [k for k in self._active_exchanges if k[0] == message.remote]:\n            messageerror_monitor, next_retransmission = self._active_exchanges.pop(key)\n        next_retransmission.cancel()\n        if message.mtype is RST:", "every exchange with the sender of an ACK is ended, not the one it names")
+R.seed("C14.k", F_MM, "        self.token_manager.dispatch_error(error, remote)\n\n        keys_for_removal = []", "        keys_for_removal = []", "exchanges selected by remote alone are dropped and nothing is failed")
